@@ -235,6 +235,9 @@ def run_case(case, fail, stats):
                 opt.enable(**args)
             elif name == "clear_log":
                 opt.clear_log()
+            elif name == "poke":
+                # the user assigns a knob directly, between two calls of the optimizer (knobs are the user's data)
+                box[names[args["knob"]]] = args["value"]
             else:
                 raise ValueError(name)
         except UserRaise:
@@ -301,6 +304,29 @@ def run_case(case, fail, stats):
             for r in range(nrows0, nrows_of(L)):
                 if not in_limits(L["knobs"][r], "log row %d" % r):
                     break
+        if name in ("disable", "enable") and exc == "ok":
+            # a selector by position or by NAME switches exactly the knobs / targets it names (a name is a full match: k1 is
+            # not k10), and nothing else
+            on = "y" if name == "enable" else "n"
+            want_v, want_t = list(f_before[0]), list(f_before[1])
+            decided = True
+            for key, val in args.items():
+                if key == "vary" and all(isinstance(d, int) for d in val):
+                    for d in val:
+                        want_v[d] = on
+                elif key == "vary_name":
+                    for d in val:
+                        for i, n in enumerate(names):
+                            if n == d:
+                                want_v[i] = on
+                elif key == "target" and all(isinstance(d, int) for d in val):
+                    for d in val:
+                        want_t[d] = on
+                else:
+                    decided = False          # tags and other selectors: no expectation here
+            if decided and f_after != ("".join(want_v), "".join(want_t)):
+                fail("C10", "selector-switched-the-wrong-knobs", {"call": call, "before": f_before, "after": f_after,
+                                                                  "expected": ["".join(want_v), "".join(want_t)], "names": names})
         if name in ("solve", "step"):
             # knobs disabled during the whole call never move
             dis = [i for i in range(nk) if f_before[0][i] == "n"]
@@ -612,8 +638,12 @@ def gen_calls(rng, spec, family):
                 calls.append([rng.choice(["disable", "enable"]), {"vary": [rng.randrange(nk)]}])
         elif r < 0.94 and nt > 1:
             calls.append([rng.choice(["disable", "enable"]), {"target": [rng.randrange(nt)]}])
-        else:
+        elif r < 0.97:
             calls.append(["clear_log", {}])
+        else:
+            k = rng.randrange(nk)
+            lo, hi = spec["knobs"][k].get("limits") or [-1.0, 1.0]
+            calls.append(["poke", {"knob": k, "value": round(rng.uniform(lo * 0.5, hi * 0.5), 3)}])
     return calls
 
 
@@ -624,6 +654,34 @@ def gen_log_reads(rng, calls):
 
 
 def fixed_cases():
+    # the solver's own copy of the knobs goes stale for a DISABLED knob: steps, the knob disabled, an older row reloaded (which
+    # writes every knob), further steps — the disabled knob stays where the reload put it, in the container and in the log
+    for k in (0, 1):
+        yield {"problem": {"class": "far", "kind": "linear", "nk": 2, "A": [[1, 0.5], [0.25, 1]], "b": [3, -2],
+                            "knobs": [{"init": 0.5}, {"init": -1.0}], "targets": [{"tol": 1e-9}, {"tol": 1e-9}], "n_steps_max": 5},
+               "calls": [["step", {"n": 2, "take_best": False}], ["disable", {"vary": [k]}], ["reload", {"i": 0}],
+                         ["step", {"n": 1}], ["step", {"n": 2}], ["reload", {"i": 4}], ["enable", {"vary": [k]}], ["step", {"n": 1}]],
+               "log_reads": [False, False, True, False, True, False, False, True]}
+    # … and the plain form: the user changes a disabled knob by hand between two steps; the active knobs are untouched, so the
+    # optimizer has no reason to look at its own copy again
+    for k in (0, 1):
+        yield {"problem": {"class": "far", "kind": "linear", "nk": 2, "A": [[1, 0.5], [0.25, 1]], "b": [3, -2],
+                            "knobs": [{"init": 0.5}, {"init": -1.0}], "targets": [{"tol": 1e-9}, {"tol": 1e-9}], "n_steps_max": 5},
+               "calls": [["step", {"n": 1, "take_best": False}], ["disable", {"vary": [k]}], ["poke", {"knob": k, "value": 1.25}],
+                         ["step", {"n": 1}], ["step", {"n": 2}], ["reload", {"i": 2}], ["step", {"n": 1, "take_best": False}]]}
+        yield {"problem": {"class": "far", "kind": "linear", "nk": 2, "A": [[1, 0.5], [0.25, 1]], "b": [3, -2],
+                            "knobs": [{"init": 0.5, "weight": 4}, {"init": -1.0, "weight": 0.5}], "targets": [{"tol": 1e-9}, {"tol": 1e-9}],
+                            "n_steps_max": 5},
+               "calls": [["step", {"n": 1}], ["poke", {"knob": k, "value": -0.75}], ["step", {"n": 1, "disable_vary": [k]}], ["step", {"n": 1}]]}
+    # knob names of which one is a prefix of another (k1 / k10), selected by name, persistently and for one call
+    yield {"problem": {"class": "converge", "kind": "linear", "nk": 3, "A": [[3, 1, 0.5], [1, 4, 0.25]], "b": [1, 2],
+                        "knobs": [{"init": 0.0}, {"init": 0.0}, {"init": 0.0}], "targets": [{"tol": 1e-9}, {"tol": 1e-9}], "n_steps_max": 5},
+           "calls": [["disable", {"vary_name": ["k10"]}], ["step", {"n": 1, "disable_vary_name": ["k1"]}], ["step", {"n": 1}],
+                     ["enable", {"vary_name": ["k10"]}], ["disable", {"vary_name": ["k1"]}], ["step", {"n": 1}]]}
+    yield {"problem": {"class": "converge", "kind": "linear", "nk": 2, "A": [[3, 1], [1, 4]], "b": [1, 2],
+                        "knobs": [{"init": 0.0}, {"init": 0.0}], "targets": [{"tol": 1e-9}, {"tol": 1e-9}], "n_steps_max": 5},
+           "calls": [["disable", {"vary_name": ["k1"]}], ["step", {"n": 1}], ["enable", {"vary_name": ["k1"]}],
+                     ["step", {"n": 1, "disable_vary_name": ["k1"]}], ["step", {"n": 1}], ["disable", {"vary_name": ["k10"]}], ["step", {"n": 1}]]}
     # the public log read at 3 rows, cleared, grown back to 3 rows from other knob values, read again
     yield {"problem": {"class": "far", "kind": "linear", "nk": 2, "A": [[1, 0.5], [0.25, 1]], "b": [3, -2],
                         "knobs": [{"init": 0.5}, {"init": -1.0}], "targets": [{"tol": 1e-9}, {"tol": 1e-9}], "n_steps_max": 5},
